@@ -5,7 +5,7 @@
    [chk12] compares with the implementation's observation (bit 0) and evaluates the
    executable form of property C12 on the implementation's observation (bit 1). *)
 From Coq Require Import List NArith Bool Arith.
-From HV Require Import Push.Model.
+From HV Require Import Push.Model Push.Model2.
 Import ListNotations.
 
 Set Implicit Arguments.
@@ -33,6 +33,13 @@ Definition gev (g : gcode) (x : N) : list N :=
   | GTwo => [x; (x + 10)%N]
   end.
 
+Inductive ocode := OAdd | OMax | OMin.
+Definition oev (o : ocode) (a x : N) : N :=
+  match o with OAdd => (a + x)%N | OMax => N.max a x | OMin => N.min a x end.
+
+(* keyed outputs (k, acc) are observed by the recorder as one number *)
+Definition enc_kv (kv : N * N) : N := (fst kv * 100000 + snd kv)%N.
+
 Inductive comb :=
 | CMap (f : fcode)
 | CFilter (q : pcode)
@@ -42,13 +49,24 @@ Inductive comb :=
 | CFlatten
 | CFanout
 | CUnzip
-| CDemux.
+| CDemux
+| CFold (o : ocode) (init : N)
+| CReduce (o : ocode) (init : option N)
+| CSortAcc
+| CSort
+| CPersist (pre : list N) (replay : bool)
+| CForEach
+| CFoldKeyed (o : ocode) (init : N) (ord : list N)
+| CReduceKeyed (o : ocode) (ord : list N)
+| CResolve (waker : bool).
 
 (* ------------------------------------------------------------------ item decoding *)
 
 Definition it_n (i : list N) : N := hd 0%N i.
 Definition it_pair (i : list N) : N * N := (nth 0 i 0%N, nth 1 i 0%N).
 Definition it_idx (i : list N) : nat * N := (N.to_nat (nth 0 i 0%N), nth 1 i 0%N).
+
+Definition it_fut (i : list N) : N * nat := (nth 0 i 0%N, N.to_nat (nth 1 i 0%N)).
 
 Definition script := (list bool * list bool)%type.
 Definition nthsc (l : list script) (i : nat) : script := nth i l ([], []).
@@ -82,6 +100,26 @@ Definition run_case (c : comb) (fuel : nat) (items : list (list N)) (dn : list s
                    (fun s => [lg (fst (snd s)); lg (snd (snd s))]) fuel (map it_pair items)
   | CDemux => run1 (demux_push R) ([], map (@ds0 N) dn) (fun s => map (@lg N) (snd s)) fuel
                    (map it_idx items)
+  | CFold o init => run1 (accumulate_push (oev o) (@fold_outf N) R) (Accumulating init, d0)
+                         (fun s => [lg (snd s)]) fuel (map it_n items)
+  | CReduce o init => run1 (accumulate_push (reduce_accf (oev o)) (@reduce_outf N) R) (Accumulating init, d0)
+                           (fun s => [lg (snd s)]) fuel (map it_n items)
+  | CSortAcc => run1 (accumulate_push sortst_accf sortN R) (Accumulating [], d0)
+                     (fun s => [lg (snd s)]) fuel (map it_n items)
+  | CSort => run1 (sort_push R) (([], false), d0) (fun s => [lg (snd s)]) fuel (map it_n items)
+  | CPersist pre replay => run1 (persist_push R) (pers_init R pre replay d0)
+                                (fun s => [lg (snd s); map (@ESend N) (rev (fst (fst s) ++ snd (fst s)))])
+                                fuel (map it_n items)
+  | CForEach => run1 (for_each_push N) [] (fun s => [map (@ESend N) s]) fuel (map it_n items)
+  | CFoldKeyed o init ord =>
+    run1 (keyed_push (map_push R enc_kv) (fold_keyed_upd init (oev o)) ord) (([], [], false), d0)
+         (fun s => [lg (snd s)]) fuel (map it_pair items)
+  | CReduceKeyed o ord =>
+    run1 (keyed_push (map_push R enc_kv) (reduce_keyed_upd (oev o)) ord) (([], [], false), d0)
+         (fun s => [lg (snd s)]) fuel (map it_pair items)
+  | CResolve w => run1 (resolve_push R w) ([], d0)
+                       (fun s => [lg (snd s); map (fun f : N * nat => ESend (fst f)) (rev (fst s))])
+                       fuel (map it_fut items)
   end.
 
 (* ------------------------------------------------------------------ reference semantics *)
@@ -104,13 +142,29 @@ Definition ref_items (c : comb) (items : list (list N)) (i : nat) : list N :=
   | CFanout => map it_n items
   | CUnzip => if Nat.eqb i 0 then map fst (map it_pair items) else map snd (map it_pair items)
   | CDemux => demux_ref i (map it_idx items)
+  | CFold o init => [fold_left (oev o) (map it_n items) init]
+  | CReduce o init => reduce_outf (fold_left (reduce_accf (oev o)) (map it_n items) init)
+  | CSortAcc | CSort => sortN (map it_n items)
+  | CPersist pre replay => (if replay then pre else []) ++ map it_n items
+  | CForEach => map it_n items
+  | CFoldKeyed o init ord =>
+    map enc_kv (emit_order ord (fold_left (fun m kv => kupd (fst kv) (fold_keyed_upd init (oev o) (snd kv)) m)
+                                          (map it_pair items) []))
+  | CReduceKeyed o ord =>
+    map enc_kv (emit_order ord (fold_left (fun m kv => kupd (fst kv) (reduce_keyed_upd (oev o) (snd kv)) m)
+                                          (map it_pair items) []))
+  | CResolve _ => map fst (map it_fut items)
   end.
+
+
 
 Definition n_down (c : comb) (dn : list script) : nat :=
   match c with
   | CFanout | CUnzip => 2
   | CDemux => length dn
   | CInspect => 2   (* second "log" is the closure's record of inspected items *)
+  | CPersist _ _ => 2   (* second "log": the persisted Vec at the end *)
+  | CResolve _ => 2     (* second "log": outputs of the futures still queued *)
   | _ => 1
   end.
 
@@ -181,6 +235,19 @@ Fixpoint downs_ok (strict finished : bool) (c : comb) (items : list (list N)) (i
   | h :: r => down_ok strict finished (ref_items c items i) h && downs_ok strict finished c items (S i) r
   end.
 
+(* the keys of the final map: the order oracle must be a permutation of them *)
+Definition final_keys (c : comb) (items : list (list N)) : list N :=
+  match c with
+  | CFoldKeyed _ _ _ | CReduceKeyed _ _ =>
+    map fst (fold_left (fun m kv => kupd (fst kv) (fun _ : option N => 0%N) m) (map it_pair items) [])
+  | _ => []
+  end.
+Definition oracle_ok (c : comb) (items : list (list N)) : bool :=
+  match c with
+  | CFoldKeyed _ _ ord | CReduceKeyed _ ord => eqb_list N.eqb (sortN ord) (sortN (final_keys c items))
+  | _ => true
+  end.
+
 Definition holds_gen (strict : bool) (c : comb) (items : list (list N)) (dn : list script)
            (o : observation) : bool :=
   negb (in_scope c items dn) ||
@@ -193,7 +260,24 @@ Definition holds_gen (strict : bool) (c : comb) (items : list (list N)) (dn : li
       (* q: the items the closure saw, in order = exactly the items sent on *)
       down_ok strict (eqb_out oc Finished) (ref_items c items 0) h &&
       eqb_list N.eqb (sent (rev q)) (sent (rev h))
-    | _, _ => downs_ok strict (eqb_out oc Finished) c items 0 hs
+    | CPersist pre _, [h; q] =>
+      (* q: the persisted buffer = pre ++ the items accepted so far (all of them when finished) *)
+      down_ok strict (eqb_out oc Finished) (ref_items c items 0) h &&
+      prefixb pre (sent (rev q)) && prefixb (sent (rev q)) (pre ++ map it_n items) &&
+      (negb (eqb_out oc Finished) || eqb_list N.eqb (sent (rev q)) (pre ++ map it_n items))
+    | CForEach, [q] =>
+      (* terminal: the closure is called with exactly the items, in order *)
+      if eqb_out oc Finished then eqb_list N.eqb (sent (rev q)) (map it_n items)
+      else prefixb (sent (rev q)) (map it_n items)
+    | CResolve w, [h; q] =>
+      (* outputs in the order the futures were sent; what is not delivered is still queued
+         (only possible with a subgraph waker, which defers pending futures to a later tick) *)
+      (if strict then wf (rev h) else wfw (rev h)) &&
+      prefixb (sent (rev h)) (ref_items c items 0) &&
+      (negb (eqb_out oc Finished) ||
+       (findone (rev h) && eqb_list N.eqb (sent (rev h) ++ sent (rev q)) (ref_items c items 0) &&
+        (w || match q with [] => true | _ => false end)))
+    | _, _ => oracle_ok c items && downs_ok strict (eqb_out oc Finished) c items 0 hs
     end
   end.
 
